@@ -69,6 +69,10 @@ def rich_spec(m=0, perm=None):
     add("fatha-ar", 0x64E, 0, anchors=[("_top", 0, 600)])
     add("aacute", 0xE1, comps=[("a", (1, 0, 0, 1, 0, 0)), ("acutecomb", (1, 0, 0, 1, 250 + d, -50))])
     add("aogonek", 0x105, comps=[("a", (1, 0, 0, 1, 0, 0)), ("cedillacomb", (1, 0, 0, 1, 400, 0))])
+    # two composites that share a NESTED composite base (aacute -> a): with a sparse layer holding 'a'
+    # both must get a master at the sparse location when they are decomposed
+    add("aacute.alt", None, comps=[("aacute", (1, 0, 0, 1, 20 + d, 0))])
+    add("aacute.sc", None, comps=[("aacute", (0.5, 0, 0, 0.5, 0, 0))])
     groups = {
         "public.kern1.A": ["a", "A-cy", "alpha", "aacute"],
         "public.kern1.O": ["o", "period"],
